@@ -37,10 +37,16 @@ pub enum ErrKind {
     TimedOut,
     /// `write` returns Ok(0) (std defines this as failure `WriteZero` for write_all)
     ReturnsZero,
+    InvalidInput,
+    WouldBlock,
+    AlreadyExists,
+    Unsupported,
+    ConnectionReset,
+    AddrInUse,
 }
 
 impl ErrKind {
-    pub const ALL: [ErrKind; 10] = [
+    pub const ALL: [ErrKind; 16] = [
         ErrKind::Other,
         ErrKind::PermissionDenied,
         ErrKind::BrokenPipe,
@@ -51,6 +57,12 @@ impl ErrKind {
         ErrKind::OutOfMemory,
         ErrKind::TimedOut,
         ErrKind::ReturnsZero,
+        ErrKind::InvalidInput,
+        ErrKind::WouldBlock,
+        ErrKind::AlreadyExists,
+        ErrKind::Unsupported,
+        ErrKind::ConnectionReset,
+        ErrKind::AddrInUse,
     ];
 
     pub fn io(self) -> io::ErrorKind {
@@ -64,6 +76,12 @@ impl ErrKind {
             ErrKind::InvalidData => io::ErrorKind::InvalidData,
             ErrKind::OutOfMemory => io::ErrorKind::OutOfMemory,
             ErrKind::TimedOut => io::ErrorKind::TimedOut,
+            ErrKind::InvalidInput => io::ErrorKind::InvalidInput,
+            ErrKind::WouldBlock => io::ErrorKind::WouldBlock,
+            ErrKind::AlreadyExists => io::ErrorKind::AlreadyExists,
+            ErrKind::Unsupported => io::ErrorKind::Unsupported,
+            ErrKind::ConnectionReset => io::ErrorKind::ConnectionReset,
+            ErrKind::AddrInUse => io::ErrorKind::AddrInUse,
         }
     }
 }
@@ -228,6 +246,31 @@ impl Write for Sink {
     }
 }
 
+/// A sink that hands its bytes over only when flushed (like a BufWriter borrowed by the writer, or a staging writer
+/// without a flushing Drop): what reaches `committed` is what a reader of the destination would see.
+pub struct StagingSink {
+    pub staged: Vec<u8>,
+    pub committed: Rc<RefCell<Vec<u8>>>,
+}
+
+impl StagingSink {
+    pub fn new() -> (StagingSink, Rc<RefCell<Vec<u8>>>) {
+        let c = Rc::new(RefCell::new(Vec::new()));
+        (StagingSink { staged: Vec::new(), committed: c.clone() }, c)
+    }
+}
+
+impl Write for StagingSink {
+    fn write(&mut self, buf: &[u8]) -> io::Result<usize> {
+        self.staged.extend_from_slice(buf);
+        Ok(buf.len())
+    }
+    fn flush(&mut self) -> io::Result<()> {
+        self.committed.borrow_mut().append(&mut self.staged);
+        Ok(())
+    }
+}
+
 // ---------------------------------------------------------------------------------------------
 // Source
 
@@ -324,6 +367,69 @@ impl Seek for SharedSource {
     fn seek(&mut self, style: SeekFrom) -> io::Result<u64> {
         let n = do_seek(self.data.len() as u64, self.pos.get(), style)?;
         self.pos.set(n);
+        Ok(n)
+    }
+}
+
+/// A source that itself uses grenad (on small compressed files, all codecs in turn) inside every `read` and `seek`, the
+/// way a reader backed by another grenad file would: the library must be re-entrant on one thread.
+#[derive(Clone)]
+pub struct ReentrantSource {
+    pub data: Rc<Vec<u8>>,
+    pub pos: u64,
+    pub calls: Rc<std::cell::Cell<u64>>,
+}
+
+fn inner_files() -> &'static Vec<Vec<u8>> {
+    static F: std::sync::OnceLock<Vec<Vec<u8>>> = std::sync::OnceLock::new();
+    F.get_or_init(|| {
+        crate::common::Codec::ALL
+            .iter()
+            .map(|c| {
+                let conf = crate::common::WConf { codec: *c, level: 1, block_size: Some(1024), interval: None, levels: 1 };
+                let entries: crate::common::Entries = (0..40u8).map(|i| (vec![b'i', i], vec![i; 100])).collect();
+                crate::common::write_file(&conf, &entries).expect("inner file")
+            })
+            .collect()
+    })
+}
+
+impl ReentrantSource {
+    pub fn new(data: Rc<Vec<u8>>) -> ReentrantSource {
+        ReentrantSource { data, pos: 0, calls: Rc::new(std::cell::Cell::new(0)) }
+    }
+
+    fn reenter(&self) -> io::Result<()> {
+        let n = self.calls.get();
+        self.calls.set(n + 1);
+        let f = &inner_files()[(n % 6) as usize];
+        let r = grenad::Reader::new(io::Cursor::new(f.as_slice())).map_err(|e| io::Error::new(io::ErrorKind::Other, format!("inner grenad use failed: {e}")))?;
+        let mut c = r.into_cursor().map_err(|e| io::Error::new(io::ErrorKind::Other, format!("inner grenad use failed: {e}")))?;
+        let probe = [b'i', (n % 40) as u8];
+        match c.move_on_key_greater_than_or_equal_to(probe) {
+            Ok(Some((k, _))) if k == probe => Ok(()),
+            other => Err(io::Error::new(io::ErrorKind::Other, format!("inner grenad use gave a wrong answer: {:?}", other.map(|o| o.map(|(k, _)| k.to_vec()))))),
+        }
+    }
+}
+
+impl Read for ReentrantSource {
+    fn read(&mut self, buf: &mut [u8]) -> io::Result<usize> {
+        self.reenter()?;
+        let start = (self.pos as usize).min(self.data.len());
+        // short reads too, so that several inner uses happen within one outer block load
+        let n = buf.len().min(self.data.len() - start).min(997);
+        buf[..n].copy_from_slice(&self.data[start..start + n]);
+        self.pos += n as u64;
+        Ok(n)
+    }
+}
+
+impl Seek for ReentrantSource {
+    fn seek(&mut self, style: SeekFrom) -> io::Result<u64> {
+        self.reenter()?;
+        let n = do_seek(self.data.len() as u64, self.pos, style)?;
+        self.pos = n;
         Ok(n)
     }
 }
